@@ -796,3 +796,9 @@ func init() {
 		return out
 	}
 }
+
+func init() {
+	id := func(fr *frame, a []value) value { return a[0] }
+	externals["internal/stringslite.Clone"] = id
+	externals["strings.Clone"] = id
+}
